@@ -58,6 +58,32 @@ def fixed_replays():
     return n, bad
 
 
+def fidelity(props, base_seed, n):
+    """Stub fidelity: the same cases on SimDisk and on real files must give
+    the same answers and the same final bytes."""
+    import copy
+
+    runner._load_specs()
+    bad = []
+    cnt = 0
+    for p in props:
+        spec = runner.REGISTRY[p]
+        for i in range(n):
+            seed = runner.derive_seed(base_seed, p, i)
+            case = spec.gen(random.Random(seed), "quick", seed)
+            if case["config"].get("backend", "sim") != "sim":
+                continue
+            c2 = copy.deepcopy(case)
+            c2["config"]["backend"] = "real"
+            r1, r2 = spec.run(case), spec.run(c2)
+            cnt += 1
+            k1 = (r1.extra.get("answers_digest"), r1.extra.get("final_bytes"), r1.violation and r1.violation[0])
+            k2 = (r2.extra.get("answers_digest"), r2.extra.get("final_bytes"), r2.violation and r2.violation[0])
+            if k1 != k2:
+                bad.append("%s/%d %r vs %r" % (p, i, k1, k2))
+    return cnt, bad
+
+
 def main(a):
     runner._load_specs()
     t0 = time.time()
@@ -76,6 +102,11 @@ def main(a):
     print("determinism: %d runs x 4 executions (2 in-process, 2 fresh interpreters, PYTHONHASHSEED 0 and 12345): %d divergent" % (cnt, len(bad)))
     for k in bad[:10]:
         print("  divergent: " + k)
+    fc, fbad = fidelity(["C01", "C03", "C05", "C06", "C07", "C12"], a.seed, max(10, n // 2))
+    print("stub fidelity: %d cases run on SimDisk and on real files: %d differ" % (fc, len(fbad)))
+    for k in fbad[:10]:
+        print("  differs: " + k)
+    bad = bad + fbad
     nf, badf = fixed_replays()
     print("regression replays of repaired findings: %d, still failing: %s" % (nf, badf))
     print("selftest wall %.1fs" % (time.time() - t0))
